@@ -40,6 +40,7 @@ def sh(cmd, cwd=None, env=None, timeout=None, check=False):
 
 
 _built = {}
+_build_lock = __import__("threading").Lock()
 
 
 def harness_dir():
@@ -59,6 +60,11 @@ def harness_dir():
 
 def build_harness(race=False):
     """(Re)build the harness against /repo's current working tree, hooks on."""
+    with _build_lock:
+        return _build_harness(race)
+
+
+def _build_harness(race):
     key = "race" if race else "plain"
     if key in _built:
         return _built[key]
@@ -237,6 +243,18 @@ class Result:
         self.rule = ""
         self.exhaustive = None
         self.drift = []
+        self.tag = ""
+
+    def merge(self, o):
+        """fold in the result of a part of the check that ran in parallel"""
+        self.states += o.states; self.transitions += o.transitions
+        self.traces += o.traces; self.events += o.events
+        self.evaluations += o.evaluations; self.distinct += o.distinct
+        self.mc_runs += o.mc_runs; self.samples += o.samples
+        self.violations += o.violations; self.known_hits += o.known_hits
+        self.assumptions += o.assumptions; self.nonvacuity += o.nonvacuity; self.drift += o.drift
+        for k, v in o.extra.items():
+            self.extra.setdefault(k, v)
 
     def add_mc(self, label, r, count=True):
         self.mc_runs.append(dict(label=label, generated=r["generated"], distinct=r["distinct"], wall_s=round(r["wall"], 2)))
@@ -252,7 +270,7 @@ class Result:
     def violation(self, clause, detail, replay_obj):
         os.makedirs(os.path.join(REPLAYS, self.pid), exist_ok=True)
         n = len(self.violations) + 1
-        path = os.path.join(REPLAYS, self.pid, "%s-%s-%d-%d-%d.json" % (self.pid, self.tier, self.seed, os.getpid(), n))
+        path = os.path.join(REPLAYS, self.pid, "%s-%s-%d-%d-%s%d.json" % (self.pid, self.tier, self.seed, os.getpid(), self.tag, n))
         with open(path, "w") as f:
             json.dump(dict(property=self.pid, clause=clause, detail=detail, replay=replay_obj), f, indent=1, default=str)
         self.violations.append(dict(clause=clause, detail=detail, replay=path))
